@@ -3,6 +3,7 @@ import BumpVerif.Proofs.VecFilter
 import BumpVerif.Proofs.VecDrain
 import BumpVerif.Proofs.VecMore
 import BumpVerif.Proofs.VecExtend
+import BumpVerif.Proofs.VecSplice
 /-!
 # C15 (Vec part) — every element is dropped exactly once, only by its owner
 
@@ -22,10 +23,10 @@ the created ids.
 Status: proved for push, pop, insert, remove, swap_remove, truncate/clear (destructor panics
 included), append, split_off, drain and into_iter (partially consumed from both ends, dropped or
 forgotten), retain, drain_filter, dedup(_by/_by_key), extend and from_iter_in (caller's iterator),
-drop, into_bump_slice.  NOT proved here (covered by the drop-ledger oracle and by the
-model-vs-crate comparison of the `drops`/`moved` sequences only): splice, into_boxed_slice, vec!
+drop, into_bump_slice, splice (every path: any range, any iterator, partially consumed, refused
+growth, panics), into_boxed_slice (and the drop of the box), vec! (both forms, every path).
 (resize, extend_from_slice and clone are proved in `Props/C16.lean`, for every panic point of
-`Clone`, which includes "never").
+`Clone`, which includes "never".)
 -/
 namespace Bump.V.C15
 open Bump Bump.V
@@ -128,6 +129,49 @@ theorem C15_extend {c : Cfg} {v : VS} {xs : List Elem} {ins held : List Nat} (hc
     (h : RepB c v xs) (s : Src) (w : W) (ho : Own ins xs w.evs (ids s.items ++ held)) :
     ∃ ys, RepB c (extend c v (.src s) w).1 ys ∧ Own ins ys (extend c v (.src s) w).2.1.evs held := extend_own hc hd h s w ho
 
+/-- `splice(range, iter)`, `take` × `next()`, then the `Splice` is dropped: every element of the
+drained range is handed to the caller or dropped exactly once, every item of the iterator ends up
+in the vector or is dropped exactly once, the tail is owned once — on every path (rejected range,
+iterator with a lying `size_hint`, iterator or destructor panicking, growth refused); nothing leaks -/
+theorem C15_splice {c : Cfg} {v : VS} {xs : List Elem} {ins held : List Nat} (hc : CfgOK c) (hd : c.needsDrop = true)
+    (h : RepB c v xs) (s e : Bd) (src : Src) (take : Nat) (w : W) (ho : Own ins xs w.evs (ids src.items ++ held)) :
+    ∃ ys, RepB c (spliceOp c v s e (.src src) take w).1 ys ∧ Own ins ys (spliceOp c v s e (.src src) take w).2.1.evs held :=
+  spliceOp_own hc hd h s e src take w ho
+
+/-- `into_boxed_slice()` and the drop of the box: the box receives exactly the contents (no event),
+dropping it drops each element exactly once — also when one destructor panics -/
+theorem C15_into_boxed_slice {c : Cfg} {v : VS} {xs : List Elem} {ins held : List Nat} (hd : c.needsDrop = true)
+    (h : RepB c v xs) (w : W) (ho : Own ins xs w.evs held) :
+    (intoBoxedThenDrop c v w).1 = xs ∧ Own ins [] w.evs (ids xs ++ held) ∧
+      (intoBoxedThenDrop c v w).2.1.evs = w.evs ++ dropEvs c xs ∧ Own ins [] (intoBoxedThenDrop c v w).2.1.evs held := by
+  obtain ⟨h1, h2, _, _⟩ := intoBoxed_spec h w
+  refine ⟨h1, ?_, h2, ?_⟩
+  · apply ho.of_count
+    intro a; simp [List.count_append]; omega
+  · apply ho.of_count
+    intro a
+    simp only [h2, evDrops_append, evMoved_append, evDrops_dropEvs c hd, evMoved_dropEvs, ids_nil, List.count_append, List.count_nil]
+    omega
+
+/-- `vec![in b; a, b, c]`: the listed values are owned by the new vector; if a `push` is refused the
+value being pushed and the ones already pushed are dropped exactly once (with the vector) and the
+values of the expressions never evaluated (third component) remain the caller's -/
+theorem C15_vec_macro_list {c : Cfg} {ins held : List Nat} (hc : CfgOK c) (hd : c.needsDrop = true) (es : List Elem) (w : W)
+    (ho : Own ins [] w.evs (ids es ++ held)) :
+    ∃ ys, (∀ v', (vmacroListOp c es w).1 = some v' → RepB c v' ys) ∧ ((vmacroListOp c es w).1 = none → ys = []) ∧
+      Own ins ys (vmacroListOp c es w).2.1.evs (ids (vmacroListOp c es w).2.2 ++ held) :=
+  vmacroListOp_own hc hd es w ho
+
+/-- `vec![in b; elem; n]` (`n` a `usize`; `Clone` may panic at any call, the arena may refuse): the
+clones made (fresh ids, `ins'`) are owned by the new vector or were dropped exactly once with it;
+`elem` is moved in last, or dropped by the unwinding, or — `n = 0`, flag `false` — never evaluated -/
+theorem C15_vec_macro_n {c : Cfg} {ins held : List Nat} (hc : CfgOK c) (hd : c.needsDrop = true) (hf : c.freshClone = true)
+    (x : Elem) (n : Nat) (hnU : n < USIZE) (w : W) (ho : Own ins [] w.evs (x.id :: held)) (hfr : Fresh ins w.nextId) :
+    ∃ ys ins', (∀ v', (vmacroN c x n w).1 = some v' → RepB c v' ys) ∧ ((vmacroN c x n w).1 = none → ys = []) ∧
+      Own ins' ys (vmacroN c x n w).2.1.evs (if (vmacroN c x n w).2.2 then held else x.id :: held) ∧
+      Fresh ins' (vmacroN c x n w).2.1.nextId :=
+  vmacroN_own hc hd hf x n hnU w ho hfr
+
 theorem C15_exactly_once {ins evs} (h : Own ins [] evs []) :
     (evDrops evs ++ evMoved evs).Perm ins ∧ (evDrops evs ++ evMoved evs).Nodup := h.exactly_once
 
@@ -156,3 +200,7 @@ end Bump.V.C15
 #print axioms Bump.V.C15.C15_split_off
 #print axioms Bump.V.C15.C15_dedup_by
 #print axioms Bump.V.C15.C15_extend
+#print axioms Bump.V.C15.C15_splice
+#print axioms Bump.V.C15.C15_into_boxed_slice
+#print axioms Bump.V.C15.C15_vec_macro_list
+#print axioms Bump.V.C15.C15_vec_macro_n
